@@ -10,21 +10,21 @@ cp $S/demo.py ./_demo.py
 /venv/bin/python _demo.py >/dev/null 2>&1; clean=$?
 git apply $S/patch.diff || { echo "APPLY FAILED"; exit 2; }
 touchc
-/venv/bin/python _demo.py > /tmp/_demo_out.txt 2>&1; mut=$?
-rm -f /tmp/_seed_junit.xml
+/venv/bin/python _demo.py > /tmp/_demo_out_$P.txt 2>&1; mut=$?
+rm -f /tmp/_seed_junit_$P.xml
 for try in 1 2 3 4; do   # the suite occasionally segfaults inside unittest.mock in this sandbox (also on the unmodified tree): retry
-  /venv/bin/python -m pytest -v -p no:cacheprovider --timeout=900 --continue-on-collection-errors --junitxml=/tmp/_seed_junit.xml >/tmp/_seed_pytest.log 2>&1
-  [ -f /tmp/_seed_junit.xml ] && break
+  /venv/bin/python -m pytest -v -p no:cacheprovider --timeout=900 --continue-on-collection-errors --junitxml=/tmp/_seed_junit_$P.xml >/tmp/_seed_pytest_$P.log 2>&1
+  [ -f /tmp/_seed_junit_$P.xml ] && break
 done
-/venv/bin/python - <<'PY'
+P=$P /venv/bin/python - <<'PY'
 import json, xml.etree.ElementTree as ET
 b = json.load(open('/root/.vp/BASELINE.json')); stable = set(b['stable_pass'])
 res = {}
-for tc in ET.parse('/tmp/_seed_junit.xml').iter('testcase'):
+for tc in ET.parse('/tmp/_seed_junit_%s.xml' % __import__('os').environ['P']).iter('testcase'):
     name = tc.get('classname') + '::' + tc.get('name')
     res[name] = 'fail' if any(c.tag in ('failure', 'error') for c in tc) else ('skip' if any(c.tag == 'skipped' for c in tc) else 'pass')
 missing = [s for s in stable if res.get(s) != 'pass']
 print('TESTS stable=%d not_passing=%d %s' % (len(stable), len(missing), missing[:3]))
 PY
 git checkout -q -- . ; touchc; rm -f _demo.py
-echo "DEMO clean_exit=$clean mutated_exit=$mut :: $(tail -1 /tmp/_demo_out.txt | cut -c1-160)"
+echo "DEMO clean_exit=$clean mutated_exit=$mut :: $(tail -1 /tmp/_demo_out_$P.txt | cut -c1-160)"
